@@ -30,7 +30,7 @@ RULE = ("grammar-directed manifests (1-4 streams, 1-5 blocks of size 0-20 drawn 
         "sibling directories whose names are string prefixes of each other), every codec run on "
         "each manifest, every (srcpath, relocate) pair over the manifest's directories/files for Extract; direct "
         "binary-search cases over non-decreasing offset arrays; escape round trips on random byte strings; "
-        "grammar-valid manifests with a file/directory conflict; streams with block sizes near 2^63 (lengths up to "
+        "larger streams (6-12 blocks of size up to 70, up to 12 file tokens); grammar-valid manifests with a file/directory conflict; streams with block sizes near 2^63 (lengths up to "
         "and beyond 2^64); a "
         "malformed stream (arbitrary bytes over a manifest-like alphabet and single-token mutations of valid "
         "manifests incl. 2^31/2^63/2^64 boundary numbers). A case is non-trivial when its manifest is valid and "
@@ -641,8 +641,9 @@ def gen_hint(rng):
     return "+K@" + "".join(rng.choice("abcdz019") for _ in range(5))
 
 
-def gen_valid(rng, avoid_conflict=True):
-    """-> manifest text (bytes). Grammar-directed; see RULE."""
+def gen_valid(rng, avoid_conflict=True, big=False):
+    """-> manifest text (bytes). Grammar-directed; see RULE. big: streams of 6-12 blocks with sizes up to 70 and up to
+    12 file tokens (files spanning many blocks)."""
     npool = rng.randint(1, 6)
     pool = []
     for _ in range(npool):
@@ -652,7 +653,8 @@ def gen_valid(rng, avoid_conflict=True):
         elif r < 0.25:
             pool.append((gen_hash(rng), 0))
         else:
-            pool.append((gen_hash(rng), rng.choice([1, 1, 2, 3, 5, 8, 13, 20, rng.randint(1, 20)])))
+            pool.append((gen_hash(rng), rng.choice([1, 1, 2, 3, 5, 8, 13, 20, rng.randint(1, 20)]) if not big
+                         else rng.choice([1, 7, 20, 33, 64, 70, rng.randint(1, 70)])))
     nstreams = rng.randint(1, 4)
     dirs = [b"."]
     for _ in range(rng.randint(0, 3)):
@@ -669,7 +671,7 @@ def gen_valid(rng, avoid_conflict=True):
     used_files, used_dirs = set(), set()
     for _ in range(nstreams):
         sname = rng.choice(dirs)
-        nb = rng.randint(1, 5)
+        nb = rng.randint(6, 12) if big else rng.randint(1, 5)
         blocks = [rng.choice(pool) for _ in range(nb)]
         if nb >= 3 and rng.random() < 0.4:
             blocks[rng.randint(1, nb - 2)] = (EMPTY, 0)          # interior zero-length block
@@ -683,7 +685,7 @@ def gen_valid(rng, avoid_conflict=True):
             for _ in range(rng.choice([0, 0, 0, 1, 1, 2])):
                 loc += gen_hint(rng)
             toks.append(loc.encode())
-        nf = rng.randint(1, 6)
+        nf = rng.randint(4, 12) if big else rng.randint(1, 6)
         ftoks = []
         for _ in range(nf):
             name = rng.choice(fnames)
@@ -896,6 +898,8 @@ def generate(rng, tier):
         txt = gen_valid(rng, avoid_conflict=rng.random() < 0.93)
         valids.append(txt)
         cases_for_valid(rng, txt, tier, out)
+    for i in range(10 if quick else 400):
+        cases_for_valid(rng, gen_valid(rng, big=True), tier, out)
     for i in range(nconf):
         h = hx(gen_conflict(rng))
         out += [f"m.seg {h}", f"a.fs {h}", f"a.pdh {h}", f"m.ext {h} 2e 2e"]
